@@ -84,6 +84,127 @@ def rule_simult(rep: Report, repo: Repo) -> None:
     rep.check(sorted(rets) == ['new_name', 'self.name'], 'C03.SIMULT-SUBST', 'Label.eval_name', str(rets), f'{OPS}:{en.lineno}')
 
 
+def _expr_fields(init: ast.FunctionDef) -> List[Tuple[str, str]]:
+    """[(field, 'Expr' | 'List[Expr]')] from the annotated constructor parameters stored as self.<param>."""
+    out = []
+    stored = {norm(st.value): norm(st.targets[0]) for st in init.body
+              if isinstance(st, ast.Assign) and norm(st.targets[0]).startswith('self.')}
+    for a in init.args.args[1:]:
+        ann = norm(a.annotation) if a.annotation is not None else ''
+        if ann in ('Expr', 'List[Expr]') and stored.get(a.arg) == f'self.{a.arg}':
+            out.append((a.arg, ann))
+    return out
+
+
+def rule_subst_complete(rep: Report, repo: Repo) -> None:
+    rep.rule('C03.SUBST-COMPLETE', 'every op class substitutes ALL of its expression operands: each return of <Op>.eval_new is either '
+             'a new <Op> whose expression operands are self.<f>.eval_new(labels_dict) (element-wise for operand lists), or the '
+             'shared `self` under a test that requires every substituted operand to be identical to the original; '
+             'Expr.eval_new returns `self` for an operator node only when no argument changed', 9)
+    tree = repo.mod(OPS)
+    n_classes = 0
+    for cls in [n for n in tree.body if isinstance(n, ast.ClassDef)]:
+        meths = {m.name: m for m in cls.body if isinstance(m, ast.FunctionDef)}
+        if 'eval_new' not in meths or '__init__' not in meths:
+            continue
+        n_classes += 1
+        ev, init = meths['eval_new'], meths['__init__']
+        if not ev.args.args[1:]:
+            raise AnalysisError(f'{cls.name}.eval_new has no dictionary parameter')
+        dic = ev.args.args[1].arg
+        fields = _expr_fields(init)
+        params = [a.arg for a in init.args.args[1:]]
+        if not fields:
+            raise AnalysisError(f'{cls.name}: no Expr operand found in the constructor')
+        want = {f: (f'self.{f}.eval_new({dic})' if kind == 'Expr' else None) for f, kind in fields}
+        # locals bound to a substituted operand (single or tuple assignment)
+        bound: Dict[str, str] = {}
+        for st in walk_no_nested(ev):
+            if isinstance(st, ast.Assign) and len(st.targets) == 1:
+                t, v = st.targets[0], st.value
+                pairs = list(zip(t.elts, v.elts)) if isinstance(t, ast.Tuple) and isinstance(v, ast.Tuple) and len(t.elts) == len(v.elts) else [(t, v)]
+                for tt, vv in pairs:
+                    if isinstance(tt, ast.Name):
+                        bound[tt.id] = norm(vv)
+        def is_subst(arg: ast.AST, f: str, kind: str) -> bool:
+            txt = norm(arg)
+            if isinstance(arg, ast.Name) and arg.id in bound:
+                txt = bound[arg.id]
+            if kind == 'Expr':
+                return txt == want[f]
+            if isinstance(arg, ast.Name) and arg.id in bound:
+                try:
+                    arg = ast.parse(bound[arg.id], mode='eval').body
+                except SyntaxError:
+                    return False
+            if isinstance(arg, ast.ListComp) and len(arg.generators) == 1 and not arg.generators[0].ifs:
+                g = arg.generators[0]
+                return (isinstance(g.target, ast.Name) and norm(g.iter) == f'self.{f}'
+                        and norm(arg.elt) == f'{g.target.id}.eval_new({dic})')
+            return False
+        ctor_calls = [c for c in calls(ev) if dotted(c.func) == cls.name]
+        rep.check(len(ctor_calls) == 1, 'C03.SUBST-COMPLETE', f'{cls.name}.eval_new:constructs', f'{len(ctor_calls)} {cls.name}(..) calls',
+                  f'{OPS}:{ev.lineno}', expected='exactly one construction of the substituted op')
+        for c in ctor_calls:
+            args = {params[i]: a for i, a in enumerate(c.args) if i < len(params)}
+            args.update({k.arg: k.value for k in c.keywords if k.arg})
+            for f, kind in fields:
+                a = args.get(f)
+                rep.check(a is not None and is_subst(a, f, kind), 'C03.SUBST-COMPLETE', f'{cls.name}.eval_new:{f}',
+                          norm(a) if a is not None else 'missing', f'{OPS}:{c.lineno}',
+                          expected=f'self.{f} substituted with {dic}')
+        ctor_vars = {norm(st.targets[0]) for st in walk_no_nested(ev) if isinstance(st, ast.Assign)
+                     and isinstance(st.value, ast.Call) and dotted(st.value.func) == cls.name}
+        for r in [n for n in walk_no_nested(ev) if isinstance(n, ast.Return)]:
+            txt = norm(r.value) if r.value is not None else 'None'
+            if isinstance(r.value, ast.Call) and dotted(r.value.func) == cls.name:
+                continue
+            if txt in ctor_vars:
+                continue
+            if txt == 'self':
+                # the conjunction guarding the return
+                guard: Set[str] = set()
+                for n in ast.walk(ev):
+                    if isinstance(n, ast.If) and r in n.body:
+                        conj = n.test.values if isinstance(n.test, ast.BoolOp) and isinstance(n.test.op, ast.And) else [n.test]
+                        guard |= {norm(x) for x in conj}
+                need = set()
+                for f, kind in fields:
+                    loc = [k for k, v in bound.items() if v == want.get(f)]
+                    need.add(f'{loc[0]} is self.{f}' if loc and kind == 'Expr' else f'<{f} unchanged>')
+                rep.check(need <= guard, 'C03.SUBST-COMPLETE', f'{cls.name}.eval_new:return self', f'guard {sorted(guard)}',
+                          f'{OPS}:{r.lineno}', expected=f'{sorted(need)}')
+                continue
+            rep.fail('C03.SUBST-COMPLETE', f'{cls.name}.eval_new:return {txt[:40]}', 'returns neither the substituted op nor self',
+                     f'{OPS}:{r.lineno}')
+    if n_classes < 7:
+        raise AnalysisError(f'C03.SUBST-COMPLETE: only {n_classes} op classes with eval_new found (7 confirmed by hand)')
+    # Expr.eval_new: `return self` on an operator node requires the unchanged flag, cleared whenever an argument changed
+    ev = repo.func(EXPR, 'Expr.eval_new')
+    dic = ev.args.args[1].arg
+    loop = [n for n in ev.body if isinstance(n, ast.For) and isinstance(n.target, ast.Name)]
+    ok = False
+    if len(loop) == 1:
+        lp, lv = loop[0], loop[0].target.id
+        ea = [norm(s.targets[0]) for s in lp.body if isinstance(s, ast.Assign) and norm(s.value) == f'{lv}.eval_new({dic})']
+        acc = [dotted(s.value.func)[:-len('.append')] for s in lp.body if isinstance(s, ast.Expr) and isinstance(s.value, ast.Call)
+               and dotted(s.value.func).endswith('.append') and ea and [norm(a) for a in s.value.args] == [ea[0]]]
+        flag = [norm(s.body[0].targets[0]) for s in lp.body if isinstance(s, ast.If) and ea and norm(s.test) == f'{ea[0]} is not {lv}'
+                and len(s.body) == 1 and isinstance(s.body[0], ast.Assign) and norm(s.body[0].value) == 'False' and not s.orelse]
+        if len(ea) == 1 and len(acc) == 1 and len(flag) == 1:
+            fl = flag[0]
+            sets = sorted(norm(s.value) for s in ast.walk(ev) if isinstance(s, ast.Assign) and norm(s.targets[0]) == fl)
+            init_before = any(isinstance(s, ast.Assign) and norm(s.targets[0]) == fl and norm(s.value) == 'True'
+                              for s in ev.body[:ev.body.index(lp)])
+            tail = [norm(s.test) for s in ev.body[ev.body.index(lp) + 1:] if isinstance(s, ast.If)
+                    and any(isinstance(x, ast.Return) and norm(x.value) == 'self' for x in ast.walk(s))]
+            last = ev.body[-1]
+            ok = (sets == ['False', 'True'] and init_before and tail == [fl] and isinstance(last, ast.Return)
+                  and norm(last.value) in (f'Expr((op, tuple({acc[0]})))',))
+    rep.check(ok, 'C03.SUBST-COMPLETE', 'Expr.eval_new:operator-node', 'every argument substituted; self shared only when unchanged',
+              f'{EXPR}:{ev.lineno}', expected='unchanged flag cleared on any changed argument; else Expr((op, tuple(evaluated_args)))')
+
+
 def synthetic_families(repo: Repo) -> List[Tuple[str, str, str, ast.AST]]:
     """(family, rel, fixed text, node) for every synthetic name that enters a dictionary shared with user identifiers."""
     out: List[Tuple[str, str, str, ast.AST]] = []
@@ -160,6 +281,7 @@ def check(rep: Report, repo: Optional[Repo] = None) -> None:
     rep.units = dict(files=[PRE, OPS, EXPR, PARSER])
     rule_rename_first(rep, repo)
     rule_simult(rep, repo)
+    rule_subst_complete(rep, repo)
     rule_fresh(rep, repo)
     rule_prefix(rep, repo)
     rule_file_state(rep, repo)
